@@ -27,7 +27,7 @@ TOL = 1e-10
 LINEAR = ("field", "phasor")
 RULE = (
     "seeded random scenes 4-7 cells per axis, per-face boundaries from periodic pairs / PML 2-3 / PEC / PMC / none, uniform or non-uniform "
-    "edges, per-cell random material tensors (iso / diagonal / full, optional conductivities), 1-3 sources (electric / magnetic dipoles incl. "
+    "edges, per-cell random material tensors (iso / diagonal / full, optional conductivities), Lorentz/Drude boxes in 40% of the scenes, 1-3 sources (electric / magnetic dipoles incl. "
     "tilted, at most two uniform/Gaussian plane sources, switches, cw/pulse), 1-3 detectors of all four kinds, random initial field in 60% of "
     "runs, factors a_i, b in +-[0.3,3], common factor c in +-[0.5,2.5]; per scene n+3 replicas. non-trivial = combo fields non-zero at the end; "
     "distinct = boundary tuple x grid kind x material tiers x source/detector kinds x initial-field flag x loop kind"
@@ -56,6 +56,9 @@ def generate(rng, tier, index):
     spec["init_factor"] = _factor(rng, 0.3, 3.0)
     spec["common_factor"] = _factor(rng, 0.5, 2.5)
     spec["loop"] = {"cut": int(rng.integers(1, T)) if rng.uniform() < 0.7 else None}
+    # dispersive cells (Lorentz / Drude poles, per-axis ones only when no plane source needs an isotropic plane): the
+    # polarisation state joins the superposition and plane sources take their dispersive impedance-filter branch
+    rp.add_dispersive_boxes(rng, spec, 0.4, per_axis=not rp.plane_source_planes(spec["sources"]))
     return spec
 
 
@@ -119,6 +122,8 @@ def execute(spec):
     T = scenes[0].T
     mon = rp.Monitors()
     stats = {"sim_steps": 0, "sim_time_fs": 0.0, **rp.common_probes(spec), "replicas": len(fam)}
+    stats["probe_dispersive"] = int(bool(spec["materials"].get("disp_objects")))
+    stats["probe_dispersive_with_plane_source"] = int(bool(spec["materials"].get("disp_objects")) and bool(rp.plane_source_planes(spec["sources"])))
     stats["probe_negative_factor"] = int(any(x < 0 for x in a) or c < 0)
 
     arrays = [s.arrays for s in scenes]
